@@ -710,8 +710,8 @@ def compare(c, io, drv):
         if io["eq"] != m["eq"] or (io["ne"] != m["ne"] and io["ne"] != m["ne_fixed"]):
             out.append(("model", "eq/ne: impl=%r/%r model=%r/%r (repaired ne: %r)" % (
                 io["eq"], io["ne"], m["eq"], m["ne"], m["ne_fixed"])))
-        if m["hash_equal"] and not io["hash_equal"]:
-            out.append(("model", "same powers in both polynomials but different hashes"))
+        # the model's hash key (tuple of sorted powers) is tallied only: the property demands `==` => equal hashes,
+        # so a finer hash (e.g. over the items) must stay quiet
         if s is not None and io["eq"] != s["eq"]:
             out.append(("spec", "== is %r but the normalised numerator/denominator pairs are %s" % (
                 io["eq"], "equal" if s["eq"] else "different")))
@@ -865,7 +865,34 @@ def _shrink_xs(c):
             yield dict(c, xs=xs[:i] + [1] + xs[i + 1:])
 
 
+def _sig_class(c):
+    """the part of the observation that decides the signature of a comparison / list case; shrinking must not
+    leave it (a smaller case of a *different* failure class could be mistaken for a recorded finding)"""
+    try:
+        io = impl(c)
+    except Exception:
+        return ("unmapped",)
+    if "err" in io:
+        return ("err", io["err"])
+    if c["entry"] == "eq":
+        return (io["eq"], io["ne"], io["num_equal"], io["den_equal"])
+    if c["entry"] == "list":
+        return (io["shortcut"], "err" in io["numpoly"], "err" in io["denpoly"], "err" in io["out"])
+    return ()
+
+
 def shrink(c):
+    if c["entry"] in ("eq", "list"):
+        base = _sig_class(c)
+        for cand in _shrink(c):
+            if _sig_class(cand) == base:
+                yield cand
+    else:
+        for cand in _shrink(c):
+            yield cand
+
+
+def _shrink(c):
     e = c["entry"]
     if e == "tree":
         for i, t in enumerate(_shrink_tree(c["tree"])):
